@@ -5,12 +5,17 @@ import LsLemmas.LoopBound
   less, never more). The transaction-level part of C10 is in `LsProps/C10.lean`.
   Second half: the bound — once applications have stopped writing, an instance stores at most what
   it `owed` (≤ 2), a fleet of n at most the sum (≤ 2·n); helper lemmas in `LsLemmas/LoopBound.lean`.
+  Third part: the forced periodic snapshot (`storage_force_snapshot_interval`) — the one upload
+  without a local cause: `C10_forced_upload`, `C10_forced_then_quiet`. Everything before it is
+  about states and schedules in which no snapshot is overdue (`Synced` says so; runs from `init`
+  never arm the flag, `forceArmed_run`).
 -/
 namespace Ls.C10
 open Ls Ls.Txn Ls.SyncLoop Ls.Loop
 
 /-- **No echo, one segment.** If `lastSynced` has caught up with `lastTxn` (`Synced`: at `top`,
-    `beforeInfo`, `sleep`: `lastTxn ≤ lastSynced`; at `loadAfterTxn txnID false`: `lastTxn ≤ txnID`),
+    `beforeInfo`, `sleep`: `lastTxn ≤ lastSynced`; at `loadAfterTxn txnID false`: `lastTxn ≤ txnID`;
+    and no snapshot is overdue: `forceArmed = false`),
     then after one more segment — whatever the receiver hands over, whatever the snapshot contains
     and whether or not merging it changes the LMDB — it has caught up again and nothing was stored:
     a `LoadOnce` that finds no local change hands its (adjusted) transaction id to `lastSynced`. -/
@@ -39,7 +44,8 @@ theorem C10_calm_synced (c : LoopCfg) (env : Env) (b : Bucket) (evs : List Ev)
       ∃ t lc inst ts n, (run c env b evs).st.pc = .loadAfterTxn t lc inst ts n) :
     Synced (run c env b evs).st := by
   have h0 := (inv0_run c env b evs).pcinv
-  unfold Synced
+  refine ⟨?_, forceArmed_run c env b evs⟩
+  unfold Caught
   rcases hpc with h | h | h | ⟨t, lc, inst, ts, n, h⟩ <;> rw [h] at h0 ⊢
   · exact h0 hcalm
   · exact h0 hcalm
@@ -52,7 +58,9 @@ theorem C10_calm_synced (c : LoopCfg) (env : Env) (b : Bucket) (evs : List Ev)
     application transaction was recorded (`sendApp`), or it is the first dump of a run that started
     with a non-empty LMDB (`sendStart`: "lastSyncedTxnID starts as 0 to force at least one snapshot
     on startup" — the start-up `SendOnce` when the bucket is empty, else the first loop send).
-    Merged snapshots are not a cause. (The model has no forced snapshot interval.) -/
+    Merged snapshots are not a cause. (The third cause the code knows, an overdue snapshot —
+    `storage_force_snapshot_interval` — does not occur in these schedules: `Ev` has no arming
+    event, `forceArmed_run`; for it see `C10_forced_upload`.) -/
 theorem C10_upload_causes (c : LoopCfg) (env : Env) (b : Bucket) (evs : List Ev) (i : In)
     (hst : Stores c (run c env b evs).st i) :
     (run c env b evs).gh.sendApp = true ∨ (run c env b evs).gh.sendStart = true := by
@@ -323,5 +331,88 @@ example :
     by decide +kernel, by decide +kernel, by decide +kernel⟩
 
 end Witnesses
+
+/-! ## the forced periodic snapshot (`storage_force_snapshot_interval`)
+
+  The force flag `forceArmed` ("the last snapshot is older than the force interval") is armed only
+  from outside (`armForce`: the harness turns the clock back); the event language `Ev` has no
+  arming event, so along every `run` no snapshot is overdue (`forceArmed_run`) and the theorems
+  above speak about schedules WITHOUT a forced snapshot; `Synced` includes `forceArmed = false`.
+  What an armed flag does — exactly one upload, then silence again — is stated here for `go`
+  from arbitrary states. -/
+
+/-- **A forced upload.** The loop is at `top`, `lastSynced` has caught up with `lastTxn` (nothing
+    local to publish — without the force flag the state would be `Synced` and nothing would ever
+    be stored, `C10_no_echo`), but a snapshot is overdue (`forceArmed = true`); the own instance is
+    not in the waiting set and the start-up guard `hasDataAtStart ∨ lastTxn > 0` is open; the
+    instance is not receive-only. Then a full iteration without application transactions —
+    `iteration i1 … i5`: the five segments `top`, `beforeInfo`, `beforeSend`, `sendAfterTxn`,
+    `sendStored`, where the receiver hands over nothing, `SendOnce`'s transaction succeeds with
+    result `r` and fewer Store attempts fail than the retry budget — stores EXACTLY ONE snapshot
+    (the bucket grows by the dump of that transaction, `ownStores = 1`); after it the force flag
+    is cleared (`SendOnce` sets `lastSnapshotTime` after a successful store) and the state is
+    `Synced` again: `lastSynced` has caught up and no snapshot is overdue; the loop idles (or has
+    ended, in only-once mode). -/
+theorem C10_forced_upload (c : LoopCfg) (g : G) (i1 i2 i3 i4 i5 : In) (r : SendRes)
+    (hpc : g.st.pc = .top) (hle : g.st.env.lastTxn ≤ g.st.lastSynced)
+    (harm : g.st.forceArmed = true) (hown : c.own ∉ g.st.waiting)
+    (hdata : g.st.hasDataAtStart = true ∨ g.st.env.lastTxn > 0)
+    (hro : c.txn.receiveOnly = false) (hnone : i1.next = none)
+    (hsend : sendOnce c.txn g.st.env i3.now 0 = .ok r) (hf : i4.fails < c.retryCount) :
+    (runFrom c g (iteration i1 i2 i3 i4 i5)).bucket =
+      g.bucket ++ [{ inst := c.own, ts := i3.now, snap := r.snap }] ∧
+    ownStores c g (iteration i1 i2 i3 i4 i5) = 1 ∧
+    (runFrom c g (iteration i1 i2 i3 i4 i5)).st.forceArmed = false ∧
+    Synced (runFrom c g (iteration i1 i2 i3 i4 i5)).st ∧
+    ((runFrom c g (iteration i1 i2 i3 i4 i5)).st.pc = .sleep ∨
+      (runFrom c g (iteration i1 i2 i3 i4 i5)).st.pc = .exited .ok) :=
+  forced_iteration c g i1 i2 i3 i4 i5 r hpc hle harm hown hdata hro hnone hsend hf
+
+/-- **… and then quiet: one forced upload, not one per iteration.** After the forced iteration of
+    `C10_forced_upload`, for every continuation of any length in which no application transaction
+    is recorded (loop segments with arbitrary receiver answers, clock readings and store failures,
+    listings, other instances' stores — and no new arming: `Ev` has none), the instance stores
+    nothing more: the bucket is the old one, the one forced snapshot, and the others' blobs. This
+    is what a lost reset of the force flag would violate (the flag is cleared at `sendStored`;
+    were it not, every following iteration would upload again). -/
+theorem C10_forced_then_quiet (c : LoopCfg) (g : G) (i1 i2 i3 i4 i5 : In) (r : SendRes)
+    (hpc : g.st.pc = .top) (hle : g.st.env.lastTxn ≤ g.st.lastSynced)
+    (harm : g.st.forceArmed = true) (hown : c.own ∉ g.st.waiting)
+    (hdata : g.st.hasDataAtStart = true ∨ g.st.env.lastTxn > 0)
+    (hro : c.txn.receiveOnly = false) (hnone : i1.next = none)
+    (hsend : sendOnce c.txn g.st.env i3.now 0 = .ok r) (hf : i4.fails < c.retryCount)
+    (evs : List Ev) (hna : NoAppFrom c (runFrom c g (iteration i1 i2 i3 i4 i5)) evs) :
+    (runFrom c (runFrom c g (iteration i1 i2 i3 i4 i5)) evs).bucket =
+      g.bucket ++ [{ inst := c.own, ts := i3.now, snap := r.snap }] ++ othersOf evs ∧
+    ownStores c (runFrom c g (iteration i1 i2 i3 i4 i5)) evs = 0 ∧
+    ownStores c g (iteration i1 i2 i3 i4 i5 ++ evs) = 1 ∧
+    Synced (runFrom c (runFrom c g (iteration i1 i2 i3 i4 i5)) evs).st := by
+  obtain ⟨hb, h1, _, hs, _⟩ := C10_forced_upload c g i1 i2 i3 i4 i5 r hpc hle harm hown hdata hro hnone hsend hf
+  obtain ⟨hs', hb'⟩ := C10_no_echo c _ evs hs hna
+  have hl := ownStores_length c (runFrom c g (iteration i1 i2 i3 i4 i5)) evs
+  rw [hb', List.length_append] at hl
+  have h0 : ownStores c (runFrom c g (iteration i1 i2 i3 i4 i5)) evs = 0 := by omega
+  refine ⟨by rw [hb', hb], h0, ?_, hs'⟩
+  rw [ownStores_append, h1, h0]
+
+section ForcedWitness
+open Ls.Loop.Witness Ls.Loop.BoundWitness
+
+/-- the hypotheses are satisfiable, and the flag matters (shadow mode): after an upload the loop
+    is back at `top`, `Synced` — forty more segments store nothing; the same state with the clock
+    turned back (`armForce`) stores exactly one snapshot in the next five segments, after which
+    the flag is cleared, and exactly one in forty -/
+example :
+    let g0 := run cfgS env0 [] (histOne ++ gos 6)
+    let ga : G := { g0 with st := armForce g0.st }
+    g0.st.pc = .top ∧ Synced g0.st ∧ cfgS.own ∉ g0.st.waiting ∧ g0.st.env.lastTxn > 0 ∧
+    ownStores cfgS g0 (gos 40) = 0 ∧
+    ga.st.forceArmed = true ∧ ownStores cfgS ga (gos 5) = 1 ∧
+    (runFrom cfgS ga (gos 5)).st.forceArmed = false ∧ Synced (runFrom cfgS ga (gos 5)).st ∧
+    ownStores cfgS ga (gos 40) = 1 := by
+  refine ⟨by decide +kernel, by decide +kernel, by decide +kernel, by decide +kernel, by decide +kernel,
+    by decide +kernel, by decide +kernel, by decide +kernel, by decide +kernel, by decide +kernel⟩
+
+end ForcedWitness
 
 end Ls.C10
